@@ -458,6 +458,6 @@ func runC15(c C15Case, info *kit.Info) *kit.Finding {
 }
 
 func TestC15_Wire(t *testing.T) {
-	p := kit.Prop[C15Case]{ID: "C15", Name: "Wire", Quick: 1600, Thorough: 60000, Gen: genC15(24), Run: runC15}
+	p := kit.Prop[C15Case]{ID: "C15", Name: "Wire", Quick: 3000, Thorough: 300000, Gen: genC15(24), Run: runC15}
 	p.Execute(t)
 }
